@@ -1,3 +1,3 @@
 (* C15 — lemmas: this file only gathers the proof files. *)
 From ADV Require Export C15.ProofsSum C15.ProofsFwd C15.ProofsBwd C15.ProofsOpt C15.ProofsVit
-  C15.ProofsVitInst C15.ProofsMix C15.ProofsLog C15.ProofsTop.
+  C15.ProofsVitInst C15.ProofsMix C15.ProofsLog C15.ProofsTop C15.ProofsBuf C15.ProofsPost C15.ProofsBW C15.ProofsTop2.
